@@ -70,6 +70,7 @@ the same firefly for generating suggestions. Lastly we persist the maximum value
 of firefly id created, to ensure that each firefly has its own unique id.
 """
 
+import copy
 import json
 import time
 from typing import Optional, Sequence
@@ -363,7 +364,9 @@ class EagleStrategyDesigner(vza.PartiallySerializableDesigner):
       # serialization and deserialization simpler.
       trial = self._utils.standardize_trial_metric_name(trial)
       if not trial.metadata.ns('eagle').get('parent_fly_id'):
-        # Trial was not generated from Eagle Strategy. Set a new parent fly id.
+        # Trial was not generated from Eagle Strategy. Set a new parent fly id
+        # on a copy of the metadata, which is still the caller's object.
+        trial = attr.evolve(trial, metadata=copy.deepcopy(trial.metadata))
         trial.metadata.ns('eagle')['parent_fly_id'] = str(
             self._firefly_pool.generate_new_fly_id()
         )
